@@ -15,8 +15,17 @@ PROP = "C03"
 def base_corpus(ctx, n_gen):
     progs = {}
     for k, v in families.all_families().items():
-        if len(v["funcs"]) > 3:                     # families with helper functions besides t, tb, main
-            progs["fam_" + k] = v
+        if "__files__" in v:
+            continue
+        # the body of main becomes a function of its own, so that the evaluator runs it in a shadow block
+        q = json.loads(json.dumps(v))
+        for f in q["funcs"]:
+            if f["n"] == "main":
+                f["n"] = "body_of_main"
+        q["funcs"].append(Func("main", [], "int", [Ret(Call("body_of_main"))]))
+        progs["fam_" + k] = q
+    for k, v in float_arith_family().items():
+        progs["fam_" + k] = v
     for k in range(n_gen):
         progs["gen_%d_%d" % (ctx.seed, k)] = Gen(ctx.seed * 9000011 + k).program()
     # the specification's own example of static scoping (8.1) and a return inside a match arm
@@ -25,6 +34,22 @@ def base_corpus(ctx, n_gen):
         Func("f", [], "int", [Let("x", "int", I(2)), Ret(Call("g"))]),
         Func("main", [], "int", [Println(Call("f")), Ret(I(0))])], globals_=[("x", "int", False, I(1))])
     return progs
+
+
+def float_arith_family():
+    """float arithmetic is outside NanoSem (no IEEE arithmetic in TLA+): these programs are compared evaluator vs compiled
+    twin only (the equality C03 itself states), NanoSem reports them as unspecified"""
+    def FL(txt): return E("float", txt)
+    out = {}
+    acc = lambda n, step: [Let("s", "float", FL("0.0"), True), For("i", I(0), I(n), [Set("s", Bin("+", V("s"), FL(step)))])]
+    out["float_sum_compare"] = Program([
+        Func("balanced", [("n", "int")], "bool", acc(3, "0.1") + [Ret(Bin("==", V("s"), FL("0.3")))]),
+        Func("balanced10", [("n", "int")], "bool", acc(10, "0.1") + [Ret(Bin("==", V("s"), FL("1.0")))]),
+        Func("exact", [("n", "int")], "bool", acc(4, "0.5") + [Ret(Bin("==", V("s"), FL("2.0")))]),
+        Func("drift", [("n", "int")], "bool", acc(10, "0.1") + [Ret(Bin("!=", V("s"), FL("1.0")))]),
+        Func("below", [("n", "int")], "bool", acc(3, "0.1") + [Ret(Bin("<=", V("s"), FL("0.3")))]),
+        Func("main", [], "int", [Println(Call("balanced", I(0))), Ret(I(0))])])
+    return out
 
 
 def build(ctx, n_gen, prop):
@@ -39,6 +64,10 @@ def build(ctx, n_gen, prop):
     rnd = random.Random(ctx.seed)
     for pid, p in base.items():
         rec = ra[pid]
+        if any(s["status"].startswith("unspecified:float") for s in rec["shadows"]):
+            # no prescription: shadow blocks only print, the evaluator's text is compared with the compiled twin's
+            out[pid] = dict(true=phase_a[pid], truth_true=[], mixed=phase_a[pid], truth_mixed=[], calls=calls[pid], twin_only=True)
+            continue
         if any(s["status"] != "ok" for s in rec["shadows"]):
             continue                                  # a call faults / exceeds fuel: not a shadow-test subject
         pt, tt = with_assert_shadows(p, calls[pid], rec)
@@ -86,6 +115,16 @@ def evaluate(ctx, built, prop, full_compile=False):
     return dict(parallel_map(one, items)), eng
 
 
+def has_call(node, name):
+    if isinstance(node, dict):
+        if node.get("k") == "call" and node.get("s") == name:
+            return True
+        return any(has_call(v, name) for v in node.values())
+    if isinstance(node, list):
+        return any(has_call(v, name) for v in node)
+    return False
+
+
 def lib_run(cmd, cwd, env):
     from lib.run_prog import _run
     return _run(cmd, cwd, env, 300)
@@ -117,6 +156,9 @@ def run(ctx):
             continue
         stats["programs"] += 1
         bad = None
+        if built[pid].get("twin_only"):
+            stats["twin-only(no prescription)"] += 1
+            continue
         if [t["name"] for t in tests] != [w["fn"] for w in want]:
             bad = "tests run: %s, prescribed: %s" % ([t["name"] for t in tests], [w["fn"] for w in want])
         else:
@@ -145,11 +187,13 @@ def run(ctx):
         _, tests = parse_transcript((interp["out"] + interp["err"]).decode(errors="replace"))
         interp_out = "".join(t["out"] for t in tests if t["name"] != "main")
         nat_out = tw["run"]["out"].decode(errors="replace")
+        if built[pid].get("twin_only"):
+            interp_out = interp_out.replace(MARK + "\n", ""); nat_out = nat_out.replace(MARK + "\n", "")
         if nat_out == interp_out and tw["run"]["rc"] == 0:
             stats["native-twin-agrees"] += 1
         else:
             # who left the prescription?  (native deviations are C01/C02 findings; the evaluator's are C03's)
-            if o["status"] == "ok" and nat_out != render_out(o["out"]) and interp_out == render_out(o["out"]):
+            if o["status"] == "ok" and not built[pid].get("twin_only") and nat_out != render_out(o["out"]) and interp_out == render_out(o["out"]):
                 stats["native-side-deviates(C02)"] += 1
             elif not any(f[0] == pid and f[1] == "true" for f in failing):
                 failing.append((pid, "true", "evaluator printed %r, the compiled program %r for the same calls" % (interp_out[:120], nat_out[:120]), interp))
@@ -171,6 +215,15 @@ def run(ctx):
                 if len(w) == len(tests) and all(t["out"] == render_out(x["out"]) and (t["verdict"] == "FAILED") == (x["fails"] > 0)
                                                 for t, x in zip(tests, w) if x["status"] == "ok"):
                     hit = s; break
+            if not hit:          # findings identified by the builtins the program calls (evaluator's static array model)
+                for f in findings_for(PROP):
+                    calls_ = f.get("match", {}).get("calls")
+                    if calls_ and any(has_call(built[pid][kind], c) for c in calls_):
+                        ctx.known(f["id"], "the compile-time evaluator deviates, e.g. program %s (%s)" % (pid, bad[:100])); stats["known:" + f["id"]] += 1
+                        hit = "pattern"
+                        break
+                if hit == "pattern":
+                    continue
             if hit:
                 base_w = rb["%s|%s" % (pid, kind)]["shadows"]
                 rel = [s1 for s1 in hit.split("+") if len(hit.split("+")) == 1 or
